@@ -2757,6 +2757,7 @@ void SoPlexBase<R>::clearLPReal()
    // SPxLPBase::clear() resets the objective sense to its default; keep it consistent with the OBJSENSE parameter
    _realLP->changeSense(intParam(SoPlexBase<R>::OBJSENSE) == SoPlexBase<R>::OBJSENSE_MAXIMIZE ?
                         SPxLPBase<R>::MAXIMIZE : SPxLPBase<R>::MINIMIZE);
+   _realLP->changeObjOffset(realParam(SoPlexBase<R>::OBJ_OFFSET));
    _hasBasis = false;
    _rationalLUSolver.clear();
 
@@ -2765,6 +2766,7 @@ void SoPlexBase<R>::clearLPReal()
       _rationalLP->clear();
       _rationalLP->changeSense(intParam(SoPlexBase<R>::OBJSENSE) == SoPlexBase<R>::OBJSENSE_MAXIMIZE ?
                                SPxLPRational::MAXIMIZE : SPxLPRational::MINIMIZE);
+      _rationalLP->changeObjOffset(realParam(SoPlexBase<R>::OBJ_OFFSET));
       _rowTypes.clear();
       _colTypes.clear();
    }
@@ -3691,6 +3693,7 @@ void SoPlexBase<R>::clearLPRational()
    // SPxLPBase::clear() resets the objective sense to its default; keep it consistent with the OBJSENSE parameter
    _rationalLP->changeSense(intParam(SoPlexBase<R>::OBJSENSE) == SoPlexBase<R>::OBJSENSE_MAXIMIZE ?
                             SPxLPRational::MAXIMIZE : SPxLPRational::MINIMIZE);
+   _rationalLP->changeObjOffset(realParam(SoPlexBase<R>::OBJ_OFFSET));
    _rationalLUSolver.clear();
    _rowTypes.clear();
    _colTypes.clear();
@@ -3700,6 +3703,7 @@ void SoPlexBase<R>::clearLPRational()
       _realLP->clear();
       _realLP->changeSense(intParam(SoPlexBase<R>::OBJSENSE) == SoPlexBase<R>::OBJSENSE_MAXIMIZE ?
                            SPxLPBase<R>::MAXIMIZE : SPxLPBase<R>::MINIMIZE);
+      _realLP->changeObjOffset(realParam(SoPlexBase<R>::OBJ_OFFSET));
       _hasBasis = false;
    }
 
